@@ -79,7 +79,7 @@ CHECKS = {
         tech="exhaustive configuration enumeration (delimiter quadruples) x programs with a differential oracle against the default configuration"),
     "C20": dict(
         cat="fault_enumeration", ref="4/C20",
-        text="For 49 templates covering every tag, trim-marker placement, output shape and loops left by break/continue (plus ~1000 hyphen-subset skeletons), a fault-free render records the Write calls the engine makes; then for every call index k the writer is made to fail at call k, accepting nothing or a strict prefix (all prefix lengths for short calls), once or forever, through FRender and ParseAndFRender. Each run must return a non-nil SourceError whose cause chain reaches the injected error, never panic, never report success, the bytes accepted up to the failure must be a prefix of the fault-free output, and after a permanent failure at most one more Write may be attempted. Contract-violating short writes (n < len, nil error) are enumerated for totality.",
+        text="For 52 templates covering every tag, trim-marker placement, output shape and loops left by break/continue (plus ~1000 hyphen-subset skeletons), a fault-free render records the Write calls the engine makes; then for every call index k the writer is made to fail at call k, accepting nothing or a strict prefix (all prefix lengths for short calls), once or forever, through FRender and ParseAndFRender. Each run must return a non-nil SourceError whose cause chain reaches the injected error, never panic, never report success, the bytes accepted up to the failure must be a prefix of the fault-free output, and after a permanent failure at most one more Write may be attempted. Contract-violating short writes (n < len, nil error) are enumerated for totality.",
         note="One fault per run (rendering must stop at the first failure, so later faults are unreachable). The set of Write calls is taken from the implementation's own fault-free run.",
         tech="exhaustive fault-point enumeration: every write index x fault shape on the real render path with an injecting io.Writer"),
     "C14": dict(
